@@ -482,4 +482,17 @@ def judgeC09 (w : World) (o : C09Obs) : Option String :=
       | some (r, _) => some s!"message {repr r.path}: map-entry flag or the oneof / non-oneof / synthetic / real-oneof listings do not partition its fields"
       | none => none
 
+/-- the side conditions of the C09 theorems (what descriptor validation guarantees), as a checker -/
+def fieldOKb (f : FileD) (fd : FieldD) : Bool :=
+  (f.syn == "" || f.syn == "proto2" || f.syn == "proto3") &&
+  (!fd.oneofIndex.isSome || fd.label == 1) &&
+  (!fd.proto3Optional || (fd.oneofIndex.isSome && f.syn == "proto3")) &&
+  fd.type != 10 &&
+  (fd.label != 2 || f.syn != "proto3")
+
+def domC09 (w : World) : Bool :=
+  (allMsgs w).all fun (r, h) => match w.file? r with
+    | some f => h.fields.all (fieldOKb f)
+    | none => false
+
 end Pgs.AST
